@@ -16,40 +16,52 @@ package ptrace
 
 // ---- which base directory a name is resolved from ----
 
-//@ func runner/ptrace.getProcCwd
-//@   trusted "readlink /proc/pid/cwd"
-//@   pure
-//@   ensures result == cwdof(pid)
+//@ func runner/ptrace.getProcCwd props C15
+//@   arith int
+//@   assigns nothing
+//@   abstracts result == cwdof(pid)
 
-//@ func runner/ptrace.getProcFd
-//@   trusted "readlink /proc/pid/fd/n, then the same walk as any other path"
-//@   pure
-//@   ensures result == fdpath(pid, fd)
+//@ func runner/ptrace.getProcFd props C15
+//@   arith int
+//@   assigns nothing
+//@   abstracts result == fdpath(pid, fd)
 
-// the symlink walk itself reads the file system: decided by a bounded stand-in (DESIGN C02)
-//@ func runner/ptrace.resolveTraceePath
-//@   trusted "symlink walk below /proc/pid/root; compared with the kernel by the bounded check C02/resolver"
-//@   pure
-//@   ensures len(base) != 0 ==> result == rres(pid, base, p)
-//@   ensures len(base) == 0 ==> result == rres(pid, cwdof(pid), p)
+// the symlink walk itself reads the file system: its RESULT is decided by a bounded stand-in (DESIGN C02);
+// here only memory safety and termination of the walk are proved (C15), the result is abstract (rres).
+//@ func runner/ptrace.normalizeProcMagicPath props C15
+//@   arith int
+//@   assigns nothing
+//@   ensures len(result) >= 0
 
-//@ func runner/ptrace.absPath props C02
+//@ func runner/ptrace.resolveTraceePathOnce props C15
+//@   arith int
+//@   assigns nothing
+//@   loop 0: invariant -1 <= rangeindex && rangeindex < len(rest)
+
+//@ func runner/ptrace.resolveTraceePath props C02 C15
+//@   arith int
+//@   assigns nothing
+//@   abstracts len(base) != 0 ==> result == rres(pid, base, p)
+//@   abstracts len(base) == 0 ==> result == rres(pid, cwdof(pid), p)
+//@   loop 0: invariant 0 <= rangeiter && rangeiter < 40
+
+//@ func runner/ptrace.absPath props C02 C15
 //@   arith int
 //@   assigns nothing
 //@   ensures result == kres(pid, -100, p)
 
-//@ func runner/ptrace.absPathAt props C02
+//@ func runner/ptrace.absPathAt props C02 C15
 //@   arith int
 //@   assigns nothing
 //@   ensures result == kres(pid, dirfd, p)
 
-//@ func runner/ptrace.(*tracerHandler).getString props C02
+//@ func runner/ptrace.(*tracerHandler).getString props C02 C15
 //@   arith int
 //@   requires ctx != nil
 //@   assigns ptracer.UseVMReadv
 //@   ensures result == kres(ctx.Pid, -100, tstr(ctx.Pid, uint64(addr)))
 
-//@ func runner/ptrace.(*tracerHandler).getStringAt props C02
+//@ func runner/ptrace.(*tracerHandler).getStringAt props C02 C15
 //@   arith int
 //@   requires ctx != nil
 //@   assigns ptracer.UseVMReadv
@@ -67,7 +79,7 @@ package ptrace
 //@   assigns nothing
 //@   abstracts result == pdanger(path)
 
-//@ func runner/ptrace.(*tracerHandler).checkProcPath props C02
+//@ func runner/ptrace.(*tracerHandler).checkProcPath props C02 C15
 //@   arith int
 //@   requires h != nil && h.Handler != nil
 //@   assigns Q.n, Q.class, Q.path, Q.pclass, Q.ppath
@@ -79,7 +91,7 @@ package ptrace
 //@ macro asked(cls, p) = Q.n == old(Q.n) + 1 && Q.pclass == old(Q.class) && Q.ppath == old(Q.path) && ite(procblk(ctx.Pid, p), Q.class == 4 && Q.path == "procfs-path", Q.class == cls && Q.path == p)
 //@ macro kp(dirfd, addr) = kres(ctx.Pid, dirfd, tstr(ctx.Pid, uint64(addr)))
 
-//@ func runner/ptrace.isOpenReadOnly props C02
+//@ func runner/ptrace.isOpenReadOnly props C02 C15
 //@   arith int
 //@   assigns nothing
 //@   ensures canmodify(flags) ==> !result
@@ -93,58 +105,58 @@ package ptrace
 //@   pure
 //@   ensures result.1 == nil ==> result.0 == openhow_flags(pid, uint64(howAddr))
 
-//@ func runner/ptrace.(*tracerHandler).checkOpen props C02
+//@ func runner/ptrace.(*tracerHandler).checkOpen props C02 C15
 //@   arith int
 //@   requires h != nil && h.Handler != nil && ctx != nil
 //@   assigns ptracer.UseVMReadv, Q.n, Q.class, Q.path, Q.pclass, Q.ppath
 //@   ensures asked(ite(canmodify(uint64(flags)), 2, Q.class), kp(-100, addr)) && (Q.class == 1 || Q.class == 2 || Q.class == 4)
 
-//@ func runner/ptrace.(*tracerHandler).checkOpenAt props C02
+//@ func runner/ptrace.(*tracerHandler).checkOpenAt props C02 C15
 //@   arith int
 //@   requires h != nil && h.Handler != nil && ctx != nil
 //@   assigns ptracer.UseVMReadv, Q.n, Q.class, Q.path, Q.pclass, Q.ppath
 //@   ensures asked(ite(canmodify(uint64(flags)), 2, Q.class), kp(dirfd, addr)) && (Q.class == 1 || Q.class == 2 || Q.class == 4)
 
 // open_how unreadable: classified as a write
-//@ func runner/ptrace.(*tracerHandler).checkOpenAt2 props C02
+//@ func runner/ptrace.(*tracerHandler).checkOpenAt2 props C02 C15
 //@   arith int
 //@   requires h != nil && h.Handler != nil && ctx != nil
 //@   assigns ptracer.UseVMReadv, Q.n, Q.class, Q.path, Q.pclass, Q.ppath
 //@   ensures asked(Q.class, kp(dirfd, addr)) && (Q.class == 1 || Q.class == 2 || Q.class == 4)
 //@   ensures Q.class == 1 ==> !canmodify(openhow_flags(ctx.Pid, uint64(howAddr)))
 
-//@ func runner/ptrace.(*tracerHandler).checkRead props C02
+//@ func runner/ptrace.(*tracerHandler).checkRead props C02 C15
 //@   arith int
 //@   requires h != nil && h.Handler != nil && ctx != nil
 //@   assigns ptracer.UseVMReadv, Q.n, Q.class, Q.path, Q.pclass, Q.ppath
 //@   ensures asked(1, kp(-100, addr))
-//@ func runner/ptrace.(*tracerHandler).checkReadAt props C02
+//@ func runner/ptrace.(*tracerHandler).checkReadAt props C02 C15
 //@   arith int
 //@   requires h != nil && h.Handler != nil && ctx != nil
 //@   assigns ptracer.UseVMReadv, Q.n, Q.class, Q.path, Q.pclass, Q.ppath
 //@   ensures asked(1, kp(dirfd, addr))
-//@ func runner/ptrace.(*tracerHandler).checkWrite props C02
+//@ func runner/ptrace.(*tracerHandler).checkWrite props C02 C15
 //@   arith int
 //@   requires h != nil && h.Handler != nil && ctx != nil
 //@   assigns ptracer.UseVMReadv, Q.n, Q.class, Q.path, Q.pclass, Q.ppath
 //@   ensures asked(2, kp(-100, addr))
-//@ func runner/ptrace.(*tracerHandler).checkWriteAt props C02
+//@ func runner/ptrace.(*tracerHandler).checkWriteAt props C02 C15
 //@   arith int
 //@   requires h != nil && h.Handler != nil && ctx != nil
 //@   assigns ptracer.UseVMReadv, Q.n, Q.class, Q.path, Q.pclass, Q.ppath
 //@   ensures asked(2, kp(dirfd, addr))
-//@ func runner/ptrace.(*tracerHandler).checkStat props C02
+//@ func runner/ptrace.(*tracerHandler).checkStat props C02 C15
 //@   arith int
 //@   requires h != nil && h.Handler != nil && ctx != nil
 //@   assigns ptracer.UseVMReadv, Q.n, Q.class, Q.path, Q.pclass, Q.ppath
 //@   ensures asked(3, kp(-100, addr))
-//@ func runner/ptrace.(*tracerHandler).checkStatAt props C02
+//@ func runner/ptrace.(*tracerHandler).checkStatAt props C02 C15
 //@   arith int
 //@   requires h != nil && h.Handler != nil && ctx != nil
 //@   assigns ptracer.UseVMReadv, Q.n, Q.class, Q.path, Q.pclass, Q.ppath
 //@   ensures asked(3, kp(dirfd, addr))
 
-//@ func runner/ptrace.combineTraceActions props C03
+//@ func runner/ptrace.combineTraceActions props C03 C15
 //@   arith int
 //@   requires len(actions) == 2
 //@   assigns nothing
@@ -155,7 +167,7 @@ package ptrace
 //@   loop 0: invariant forall k int :: 0 <= k && k <= rangeindex ==> actions[k] != ptracer.TraceKill
 //@   loop 0: invariant (combined == ptracer.TraceBan) == (exists k int :: 0 <= k && k <= rangeindex && actions[k] == ptracer.TraceBan)
 
-//@ func runner/ptrace.softBanSyscall props C03
+//@ func runner/ptrace.softBanSyscall props C03 C15
 //@   arith int
 //@   requires ctx != nil
 //@   assigns ctx.regs.Rax
@@ -172,7 +184,7 @@ package ptrace
 //@ macro rdx() = ctx.regs.Rdx
 //@ macro r10() = ctx.regs.R10
 
-//@ func runner/ptrace.(*tracerHandler).Handle props C02 C03
+//@ func runner/ptrace.(*tracerHandler).Handle props C02 C03 C15
 //@   arith int
 //@   requires h != nil && h.Handler != nil && ctx != nil
 //@   assigns ptracer.UseVMReadv, ctx.regs.Rax, Q.n, Q.class, Q.path, Q.pclass, Q.ppath
